@@ -484,6 +484,64 @@ theorem neutron_view_is_binned_mass_view (e : Entry) (n : Nat) (g : Rat → Rat)
     · intro g; simp [integral]
 
 
+/-- `conv_binned` with threshold tests that remove nothing (e.g. the code's `>= 0.0` on positive abundances) -/
+theorem conv_binned_kept {κ κ₂ : Type} [DecidableEq κ] [Add κ] [DecidableEq κ₂] [Add κ₂] (φ : κ → κ₂)
+    (hφ : ∀ a b, φ (a + b) = φ a + φ b) (thr thr' : Option Rat) (d1 d2 : Dist κ) (e1 e2 : Dist κ₂)
+    (hk : AllKept thr e1 e2) (hk' : AllKept thr' d1 d2)
+    (h1 : ∀ g, integral e1 g = integral d1 (fun k => g (φ k))) (h2 : ∀ g, integral e2 g = integral d2 (fun k => g (φ k)))
+    (g : κ₂ → Rat) :
+    integral (convolve id thr none e1 e2) g = integral (convolve id thr' none d1 d2) (fun k => g (φ k)) := by
+  rw [integral_convolve id thr e1 e2 g hk, integral_convolve id thr' d1 d2 _ hk', h1]
+  apply integral_congr
+  intro q _
+  rw [h2]
+  simp only [id, hφ]
+
+/-- the element loop on joint (mass, nominal offset) keys -/
+def jointList : List (Entry × Nat) → Dist (Rat × Rat) → Dist (Rat × Rat)
+  | [], d => d
+  | (e, n) :: t, d =>
+    jointList t (convolve id none none d (elementalFrom none (jointIsotopes e) n [(((0 : Rat), (0 : Rat)), 1)]))
+
+/-- **neutron_view_is_binned_pattern**: for every list of (element, count) the un-pruned, un-rounded element loop in the
+neutron-offset view and in the mass view are the two marginals of the same joint (mass, nominal offset) pattern: the
+neutron-offset view is the mass view binned by nominal mass offset. -/
+theorem neutron_view_is_binned_pattern (Es : List (Entry × Nat)) (hEs : ∀ x ∈ Es, x.1 ∈ table) (g : Rat → Rat) :
+    integral (convolveList id (some 0) none none (Es.map (fun x => (offsetIsotopes x.1, x.2))) [((0 : Rat), 1)]) g =
+      integral (jointList Es [(((0 : Rat), (0 : Rat)), 1)]) (fun k => g k.2) ∧
+    integral (convolveList id (some 0) none none (Es.map (fun x => (massIsotopes x.1, x.2))) [((0 : Rat), 1)]) g =
+      integral (jointList Es [(((0 : Rat), (0 : Rat)), 1)]) (fun k => g k.1) := by
+  have hadd1 : ∀ a b : Rat × Rat, (a + b).1 = a.1 + b.1 := fun a b => rfl
+  have hadd2 : ∀ a b : Rat × Rat, (a + b).2 = a.2 + b.2 := fun a b => rfl
+  have key : ∀ (neu : Bool) (φ : Rat × Rat → Rat) (hφ : ∀ a b, φ (a + b) = φ a + φ b)
+      (hbase : ∀ e n g, integral (elemental none (isosOf { useNeutronCount := neu } e) n) g =
+        integral (elementalFrom none (jointIsotopes e) n [(((0 : Rat), (0 : Rat)), 1)]) (fun k => g (φ k)))
+      (Es : List (Entry × Nat)) (hEs : ∀ x ∈ Es, x.1 ∈ table) (d : Dist Rat) (dj : Dist (Rat × Rat)) (hpos : AllPos d)
+      (hd : ∀ g, integral d g = integral dj (fun k => g (φ k))) (g : Rat → Rat),
+      integral (convolveList id (some 0) none none (Es.map (fun x => (isosOf { useNeutronCount := neu } x.1, x.2))) d) g =
+        integral (jointList Es dj) (fun k => g (φ k)) := by
+    intro neu φ hφ hbase Es
+    induction Es with
+    | nil => intro _ d dj _ hd g; exact hd g
+    | cons x t ih =>
+      obtain ⟨e, n⟩ := x
+      intro hEs d dj hpos hd g
+      simp only [List.map_cons, convolveList, jointList]
+      have he : AllPos (elemental none (isosOf { useNeutronCount := neu } e) n) :=
+        allPos_elementalFrom none _ n _ (allPos_isosOf _ e (hEs (e, n) (List.mem_cons_self ..))) allPos_start
+      apply ih (fun y hy => hEs y (List.mem_cons_of_mem _ hy)) _ _ (allPos_convolve _ _ _ _ _ hpos he)
+      intro g'
+      exact conv_binned_kept φ hφ (some 0) none dj _ d _ (allKept_zero _ _ hpos he) (allKept_none _ _) hd
+        (fun g'' => hbase e n g'') g'
+  constructor
+  · have := key true (fun k => k.2) hadd2 (fun e n g => (neutron_view_is_binned_mass_view e n g).1) Es hEs
+      [((0 : Rat), 1)] [(((0 : Rat), (0 : Rat)), 1)] allPos_start (fun g => by simp [integral]) g
+    simpa [isosOf] using this
+  · have := key false (fun k => k.1) hadd1 (fun e n g => (neutron_view_is_binned_mass_view e n g).2) Es hEs
+      [((0 : Rat), 1)] [(((0 : Rat), (0 : Rat)), 1)] allPos_start (fun g => by simp [integral]) g
+    simpa [isosOf] using this
+
+
 /-- **nfold_conv_eq_multinomial**: for every isotope list, every count `n` and every function `g` of the mass, the `n`-fold
 self-convolution computed by `_calculate_elemental_distribution` (floor off) integrates `g` to the multinomial expansion
 `multi` (iterated binomial form: `Σ_j C(n,j)·a₁^j·(expansion of the other isotopes with n−j atoms, shifted by j·m₁)`); with
